@@ -4,8 +4,8 @@
 //!
 //! Usage:  rs2coq <src-dir>            (prints gen/Src.v on stdout: rules 1-13 only; see run.sh)
 //!         rs2coq <src-dir> <out-dir>  (writes Src.v, SrcBigint.v, SrcSlow.v, SrcParse.v and the four
-//!                                      SrcFront*.v and SrcStackVec.v into the existing directory
-//!                                      <out-dir>: rules 1-30; the front-ends are read below
+//!                                      SrcFront*.v, SrcStackVec.v, SrcHeapVec.v into the existing
+//!                                      directory <out-dir>: rules 1-31; the front-ends are read below
 //!                                      <src-dir>/..)
 //!
 //! # TRANSLATION RULES (this program is part of the trusted base; the rules are deliberately dumb)
@@ -224,6 +224,19 @@
 //!     pointer is refused.
 //! 30. `for i in a..b` (usize, effect-free bounds) = `rs_for` over `zrange a b` (SrcLibRaw).
 //!
+//! 31. ("heap mode", gen/SrcHeapVec.v: `rs_hv_<fn> (L : limits) (b : build) ..` for the non-delegating
+//!     functions of `impl HeapVec` and its `Deref::deref`.)  `HeapVec` / `Self` = its single field
+//!     `data : Vec<bigint::Limb>` (declaration checked) = the record `vec` of model/Vec.v; `.data`
+//!     and `Self { data: e }` are the identity.  The `std::vec::Vec` methods are the primitives of
+//!     the hand-written model/SrcLibHeap.v: `Vec::with_capacity(n)` = `std_with_capacity n`,
+//!     `self.data.push(x)` = `let v_self := std_push v_self x`, `.pop()` = `let '(t, v_self) :=
+//!     std_pop v_self`, `.extend_from_slice(s)` = `std_extend`, `.resize(n, x)` = `std_resize`,
+//!     `unsafe .set_len(n)` = `v_self <- std_set_len v_self n`, `.len()` / `.capacity()` = `vlen` /
+//!     `vcap`, `&self.data` as a slice = `vl v_self`; any other `Vec` method is refused.  `Option<()>`
+//!     results are flags next to the state as in rule 28 (`outcome (vec * bool)`), `pop` =
+//!     `outcome (vec * option Z)`, `try_from` = `outcome (option vec)`; `bigint::BIGINT_LIMBS` =
+//!     `BIGINT_LIMBS L`; method calls on a `HeapVec` are calls of the translated `rs_hv_<fn>`.
+//!
 //! # CHECKS THAT MAKE THE TRANSLATION FAIL CLOSED
 //!
 //! The rules above read the constructs they understand and resolve names by their spelling.  The
@@ -308,6 +321,7 @@ mod check;
 mod ctrl;
 mod emit;
 mod expr;
+mod heap;
 mod lower;
 mod macros;
 mod raw;
@@ -339,19 +353,21 @@ struct Target {
     shown: &'static str,
     /// rules 28-30: cell-level translation (`StackVec` / `VecType` = `raw`)
     raw: bool,
+    /// rule 31: heapvec.rs over the std `Vec` primitives
+    heap: bool,
 }
 
 const fn t(out: usize, file: &'static str, owner: &'static str, name: &'static str) -> Target {
-    Target { out, file, owner, name, fuel: 0, fuels: &[], coq: "", shown: "", raw: false }
+    Target { out, file, owner, name, fuel: 0, fuels: &[], coq: "", shown: "", raw: false, heap: false }
 }
 const fn tf(out: usize, file: &'static str, name: &'static str, fuels: &'static [&'static str]) -> Target {
-    Target { out, file, owner: "", name, fuel: 0, fuels, coq: "", shown: "", raw: false }
+    Target { out, file, owner: "", name, fuel: 0, fuels, coq: "", shown: "", raw: false, heap: false }
 }
 const fn tn(out: usize, file: &'static str, owner: &'static str, name: &'static str, fuels: &'static [&'static str], coq: &'static str) -> Target {
-    Target { out, file, owner, name, fuel: 0, fuels, coq, shown: "", raw: false }
+    Target { out, file, owner, name, fuel: 0, fuels, coq, shown: "", raw: false, heap: false }
 }
 
-const OUT_FILES: [&str; 9] = [
+const OUT_FILES: [&str; 10] = [
     "Src.v",
     "SrcBigint.v",
     "SrcSlow.v",
@@ -361,6 +377,23 @@ const OUT_FILES: [&str; 9] = [
     "SrcFrontTest.v",
     "SrcFrontEtc.v",
     "SrcStackVec.v",
+    "SrcHeapVec.v",
+];
+
+/// rule 31: gen/SrcHeapVec.v = the non-delegating functions of `impl HeapVec` (dependency order)
+/// and its `Deref::deref`
+const HEAP_FNS: [(&str, &str); 11] = [
+    ("new", "rs_hv_new"),
+    ("len", "rs_hv_len"),
+    ("is_empty", "rs_hv_is_empty"),
+    ("capacity", "rs_hv_capacity"),
+    ("set_len", "rs_hv_set_len"),
+    ("try_push", "rs_hv_try_push"),
+    ("pop", "rs_hv_pop"),
+    ("try_extend", "rs_hv_try_extend"),
+    ("try_resize", "rs_hv_try_resize"),
+    ("try_from", "rs_hv_try_from"),
+    ("deref", "rs_hv_deref"),
 ];
 
 /// rules 28-30: gen/SrcStackVec.v = the functions of `impl StackVec` (dependency order), its
@@ -439,7 +472,7 @@ const TARGETS: &[Target] = &[
     t(0, "bellerophon.rs", "", "bellerophon"),
     t(0, "slow.rs", "", "b"),
     t(0, "slow.rs", "", "bh"),
-    Target { out: 0, file: "slow.rs", owner: "", name: "scientific_exponent", fuel: 20, fuels: &[], coq: "", shown: "", raw: false },
+    Target { out: 0, file: "slow.rs", owner: "", name: "scientific_exponent", fuel: 20, fuels: &[], coq: "", shown: "", raw: false, heap: false },
     // ---- gen/SrcBigint.v
     t(1, "bigint.rs", "", "scalar_add"),
     t(1, "bigint.rs", "", "scalar_mul"),
@@ -677,7 +710,7 @@ fn find_fn<'a>(file: &'a syn::File, owner: &str, name: &str) -> Option<(&'a syn:
 }
 
 fn is_deref_impl(im: &syn::ItemImpl, owner: &str, name: &str) -> bool {
-    owner == "StackVec"
+    (owner == "StackVec" || owner == "HeapVec")
         && name == "deref"
         && im.trait_.as_ref().map(|(_, p, _)| quote::quote!(#p).to_string().replace(' ', "") == "ops::Deref").unwrap_or(false)
 }
@@ -746,6 +779,8 @@ fn known_lib() -> check::Known {
     k.external("ptr", &["core::ptr"]);
     k.external("slice", &["core::slice"]);
     k.external("mem", &["core::mem"]);
+    // rule 31: `Vec::with_capacity` and the `Vec` methods are std's
+    k.external("Vec", &["std::vec::Vec", "alloc::vec::Vec"]);
     k.external("minimal_lexical", &[]);
     // the public re-exports of lib.rs
     k.import("Float", "self::num::Float");
@@ -839,6 +874,14 @@ fn translate(g: &Globals, tg: &Target, sig: &syn::Signature, body: &syn::Block) 
     cx.file = tg.file.to_string();
     cx.self_kind = if owner.is_empty() { None } else { Some(owner.to_string()) };
     cx.raw_mode = tg.raw;
+    cx.heap_mode = tg.heap;
+    if tg.heap {
+        // rule 31: every definition of gen/SrcHeapVec.v takes `L`
+        cx.needs.l = true;
+        if let Err(m) = &g.heapvec_ok {
+            return err(sig.span(), m);
+        }
+    }
     if tg.raw {
         // rule 28: every definition of gen/SrcStackVec.v takes `L`
         cx.needs.l = true;
@@ -859,10 +902,11 @@ fn translate(g: &Globals, tg: &Target, sig: &syn::Signature, body: &syn::Block) 
                     "Bigint" => Ty::Big,
                     "ReverseView" => Ty::RView,
                     "StackVec" if tg.raw => Ty::Raw,
+                    "HeapVec" if tg.heap => Ty::Hv,
                     "BellerophonPowers" => continue, // `self` is the constant BASE10_POWERS = BT
                     _ => return err(r.span(), "`self` in an unknown impl"),
                 };
-                if mutref && ty != Ty::Big && ty != Ty::Raw {
+                if mutref && ty != Ty::Big && ty != Ty::Raw && ty != Ty::Hv {
                     return err(r.span(), "`&mut self` is unsupported");
                 }
                 if matches!(ty, Ty::Big | Ty::RView) {
@@ -902,18 +946,20 @@ fn translate(g: &Globals, tg: &Target, sig: &syn::Signature, body: &syn::Block) 
     let ret = match &sig.output {
         syn::ReturnType::Default => Ty::Unit,
         // raw mode (rule 28): `Option<()>` is a flag next to the (always returned) state
-        syn::ReturnType::Type(_, t) if tg.raw && quote::quote!(#t).to_string().replace(' ', "") == "Option<()>" => Ty::Flag,
+        syn::ReturnType::Type(_, t) if (tg.raw || tg.heap) && quote::quote!(#t).to_string().replace(' ', "") == "Option<()>" => Ty::Flag,
         syn::ReturnType::Type(_, t) => cx.conv_ty(t)?,
     };
     if ret == Ty::Float {
         cx.needs.f = true;
     }
-    if !tg.raw && matches!(ret, Ty::Opt(_)) && ret != Ty::Opt(Box::new(Ty::Unit)) && !cx.mut_params.is_empty() {
+    if !tg.raw && !tg.heap && matches!(ret, Ty::Opt(_)) && ret != Ty::Opt(Box::new(Ty::Unit)) && !cx.mut_params.is_empty() {
         return err(sig.span(), "a function with `&mut` parameters returning `Option<T>`, T other than `()`");
     }
     cx.ret_ty = ret.clone();
     // the body is lowered in the parameter scope (Rust allows `let x = …` to shadow a parameter)
     let v = cx.lower_stmts(&body.stmts, Some(&ret))?;
+    // rule 31: `&self.data` returned as a slice
+    let v = if tg.heap { cx.coerce(v, &ret) } else { v };
     if !v.never {
         if !cx.ret_compatible(&v, &ret) {
             return err(body.span(), format!("body has type {} but the function returns {}", v.ty, ret));
@@ -1011,6 +1057,7 @@ fn prelude_ext(out: usize) -> String {
             "From ML Require Import base.RustSem model.Fmt model.FloatOps model.Num model.Number model.Vec model.SrcLib\n  gen.Src gen.SrcBigint gen.SrcSlow.\n",
         ),
         8 => s.push_str("From ML Require Import base.RustSem model.Fmt model.Vec model.Bigint model.RawVec model.SrcLib model.SrcLibRaw.\n"),
+        9 => s.push_str("From ML Require Import base.RustSem model.Fmt model.Vec model.SrcLib model.SrcLibHeap.\n"),
         _ => s.push_str(
             "From ML Require Import base.RustSem model.Fmt model.FloatOps model.Num model.Number model.Vec model.SrcLib\n  model.SrcLibFront gen.Src gen.SrcBigint gen.SrcSlow gen.SrcParse.\n",
         ),
@@ -1189,6 +1236,7 @@ fn main() {
         shl_limbs_ok: false,
         export_parse_float: false,
         stackvec_ok: Err("the cell-level translation (rules 28-30) is not active in this run".into()),
+        heapvec_ok: Err("the translation of heapvec.rs (rule 31) is not active in this run".into()),
     };
     for it in &files["num.rs"].items {
         if let syn::Item::Trait(t) = it {
@@ -1264,6 +1312,10 @@ fn main() {
             }
             _ => Err("stackvec.rs: `struct StackVec` is no longer `{ data: [mem::MaybeUninit<bigint::Limb>; bigint::BIGINT_LIMBS], length: u16 }`".into()),
         };
+        g.heapvec_ok = match struct_fields(&files["heapvec.rs"], "HeapVec") {
+            Some((f, _)) if f == vec![("data".to_string(), "Vec<bigint::Limb>".to_string())] => g.limb_ok.clone(),
+            _ => Err("heapvec.rs: `struct HeapVec` is no longer `{ data: Vec<bigint::Limb> }`".into()),
+        };
         g.shl_limbs_ok = match find_fn(&files["bigint.rs"], "", "shl_limbs") {
             Some((sig, _)) => {
                 let s = quote::quote!(#sig).to_string().replace(' ', "");
@@ -1324,7 +1376,10 @@ fn main() {
     let mut targets: Vec<Target> = TARGETS.iter().map(|t| Target { ..*t }).collect();
     if ext {
         for (file, owner, name, coq) in RAW_FNS.iter() {
-            targets.push(Target { out: 8, file, owner, name, fuel: 0, fuels: &[], coq, shown: "", raw: true });
+            targets.push(Target { out: 8, file, owner, name, fuel: 0, fuels: &[], coq, shown: "", raw: true, heap: false });
+        }
+        for (name, coq) in HEAP_FNS.iter() {
+            targets.push(Target { out: 9, file: "heapvec.rs", owner: "HeapVec", name, fuel: 0, fuels: &[], coq, shown: "", raw: false, heap: true });
         }
     }
     if ext {
@@ -1360,7 +1415,7 @@ fn main() {
                             continue;
                         }
                         let coq: &'static str = Box::leak(format!("rs_{}_{}", tag, name).into_boxed_str());
-                        targets.push(Target { out, file: fkey, owner: "", name, fuel: 0, fuels, coq, shown: rel, raw: false });
+                        targets.push(Target { out, file: fkey, owner: "", name, fuel: 0, fuels, coq, shown: rel, raw: false, heap: false });
                     }
                     files.insert(fkey.to_string(), f);
                 }
